@@ -3,6 +3,8 @@ import SlotVerif.Proofs.Spec
 import SlotVerif.Props.C08
 import SlotVerif.Proofs.UfWrite
 import SlotVerif.Proofs.UfTotal
+import SlotVerif.Proofs.EqShrink
+import SlotVerif.Proofs.EqMerge
 /-!
 # C13 — Equalities are never lost and old handles stay valid
 
@@ -159,6 +161,42 @@ theorem find_total_after_writes (ws : List (Nat × AppId)) (uf' : List AppId)
   unfold Snap.find
   rw [Snap.ufGet_eq_L]
   simp [hr]
+
+/-- **once equal, equal after a shrink**: `shrink_slots` gives a class the slot set `cap`, makes its leader entry the identity
+on `cap` and rebuilds its group from the generators restricted to `cap` (all of which preserve `cap`); two invocations of the
+class whose canonical forms embed the slots and that compared equal before compare equal afterwards.  From the redirect
+theorem for the union-find write, the restriction theorem for the group (C10) and the characterisation of `eq`
+(`Proofs/EqShrink.lean`); for every class, every `cap`, every number of slots. -/
+theorem equalities_survive_shrink {s s' : Snap} {c c' : SClass} {cap : List Nat} (hok : Snap.ufOK s = true)
+    (hcls : Snap.cls s c.id = some c) (hv : Grp.Valid c.slots c.gens)
+    (hold : s.uf[c.id]? = some ⟨c.id, SlotMap.identity c.slots⟩)
+    (hsub : ∀ x ∈ cap, x ∈ c.slots) (hg : ∀ g ∈ c.gens, Grp.Pres cap g)
+    (huf : s'.uf = s.uf.set c.id ⟨c.id, SlotMap.identity cap⟩)
+    (hcls' : Snap.cls s' c.id = some c') (hid : c'.id = c.id) (hslots : c'.slots = cap)
+    (hgens : c'.gens = c.gens.map (Grp.restrict cap))
+    {a b : AppId} {A B : SlotMap} (ha : Snap.find s a = some ⟨c.id, A⟩) (hb : Snap.find s b = some ⟨c.id, B⟩)
+    (hA : Snap.IsEmb c.slots A) (hB : Snap.IsEmb c.slots B) (h : Snap.eq s a b = some true) :
+    Snap.eq s' a b = some true :=
+  Snap.eq_survives_shrink hok hcls hv hold hsub hg huf hcls' hid hslots hgens ha hb hA hB h
+
+/-- **once equal, equal after a merge**: `move_to` overwrites the leader entry of the absorbed class `cf` by `⟨ct.id, N⟩`
+(`N` a bijection from the survivor's slots onto `cf`'s) and re-asserts `cf`'s generators on the survivor as `N ; g ; N⁻¹`;
+two invocations of `cf` that compared equal before compare equal afterwards — conjugation by `N` is a group homomorphism
+(`Snap.conj_one / conj_comp / conj_inverse`), so the whole old group arrives (`Snap.gen_conj`), and the permutation between
+the new canonical forms is the conjugate of the old one (`Snap.comp_inv_conj`).  `Proofs/EqMerge.lean`. -/
+theorem equalities_survive_merge {s s' : Snap} {cf ct ct' : SClass} {N : SlotMap} (hok : Snap.ufOK s = true)
+    (hclsf : Snap.cls s cf.id = some cf) (hvf : Grp.Valid cf.slots cf.gens)
+    (holdf : s.uf[cf.id]? = some ⟨cf.id, SlotMap.identity cf.slots⟩)
+    (holdt : s.uf[ct.id]? = some ⟨ct.id, SlotMap.identity ct.slots⟩) (hne : ct.id ≠ cf.id)
+    (hN : Snap.IsBij ct.slots cf.slots N)
+    (huf : s'.uf = s.uf.set cf.id ⟨ct.id, N⟩)
+    (hcls' : Snap.cls s' ct.id = some ct') (hid : ct'.id = ct.id) (hslots : ct'.slots = ct.slots)
+    (hvt' : Grp.Valid ct'.slots ct'.gens)
+    (hgens : ∀ g ∈ cf.gens, Grp.Gen ct'.slots ct'.gens (Snap.conj N g))
+    {a b : AppId} {A B : SlotMap} (ha : Snap.find s a = some ⟨cf.id, A⟩) (hb : Snap.find s b = some ⟨cf.id, B⟩)
+    (hA : Snap.IsEmb cf.slots A) (hB : Snap.IsEmb cf.slots B) (h : Snap.eq s a b = some true) :
+    Snap.eq s' a b = some true :=
+  Snap.eq_survives_merge hok hclsf hvf holdf holdt hne hN huf hcls' hid hslots hvt' hgens ha hb hA hB h
 
 /-- non-vacuity: two classes are allocated, class 1 (slots 0, 4) is merged into class 0 (slots 8, 12) with the arguments
 exchanged, then class 0 loses slot 12; all four writes pass the guards -/
